@@ -117,8 +117,21 @@ private:
     std::atomic<marked_value> value;
   };
 
+  // The indexes are incremented by step_size and mapped to an entry modulo entries_per_node. This only visits
+  // every entry exactly once if step_size and entries_per_node are coprime, so we pick the first of these
+  // primes that does not divide entries_per_node (their product exceeds the range of unsigned).
+  static constexpr unsigned calc_step_size(unsigned n) {
+    constexpr unsigned primes[] = {11, 13, 17, 19, 23, 29, 31, 37};
+    for (unsigned p : primes) {
+      if (n % p != 0) {
+        return p;
+      }
+    }
+    return 1;
+  }
+
   // TODO - make this configurable via policy.
-  static constexpr unsigned step_size = 11;
+  static constexpr unsigned step_size = calc_step_size(entries_per_node);
   static constexpr unsigned max_idx = step_size * entries_per_node;
 
   struct node : reclaimer::template enable_concurrent_ptr<node> {
